@@ -63,7 +63,6 @@ static void sweep_case(long item)
                 AF[j].access = chance(80) ? CAT_VAR_ACCESS_READ_WRITE : CAT_VAR_ACCESS_WRITE_ONLY; AF[j].no_callback = chance(25);
                 AF[j].size = (j == pos) ? size : (AF[j].type <= CAT_VAR_NUM_HEX ? (size_t[]){ 1, 2, 4 }[rn(3)] : 1 + rn(8));
         }
-        struct cat_command *c = args_world(nv, chance(70), chance(30), chance(50));
         long L = LEN_DELTA[li] == -1000 ? 0 : LEN_DELTA[li] == -999 ? 1 : (long)size + LEN_DELTA[li];
         if (L < 0) L = 0;
         static uint8_t args[1500]; size_t n = 0; char f[300];
@@ -74,6 +73,8 @@ static void sweep_case(long item)
                 else { size_t fn = valid_arg(f, AF[a].type, AF[a].size); memcpy(args + n, f, fn); n += fn; }
         }
         snprintf(ARG_NOTE, sizeof ARG_NOTE, "sweep: %s of data_size %zu at argument position %d, decoded length %ld, variant %d", is_str ? "string" : "hex buffer", size, pos + 1, L, variant);
+        ARG_CAP_HINT = chance(30) ? n + 1 + rn(3) : 0;          /* a third of the lines on a command capacity that just holds the arguments */
+        struct cat_command *c = args_world(nv, chance(70), chance(30), chance(50));
         args_run_and_judge(c, args, n, "C05");
         nontrivial(hash_bytes(args, n, hash_u64((uint64_t)(size * 16 + (size_t)pos * 2 + is_str), 5)));
         DSET("size_length_variant_cells", (uint64_t)((((size * 2 + is_str) * 8 + (size_t)li) * 8 + (size_t)variant) + 1));
@@ -89,7 +90,6 @@ static void random_case(void)
                 AF[j].size = AF[j].type <= CAT_VAR_NUM_HEX ? (size_t[]){ 1, 2, 4 }[rn(3)] : 1 + rn(chance(25) ? 64 : 6);
                 AF[j].no_callback = AF[j].access == CAT_VAR_ACCESS_READ_ONLY || chance(30);
         }
-        struct cat_command *c = args_world(nv, chance(70), chance(30), chance(50));
         static uint8_t args[1500]; size_t n = 0; char f[300];
         unsigned nargs = chance(70) ? (unsigned)nv : rn((unsigned)nv + 2);
         if (nargs == 0 && chance(50)) nargs = 1;
@@ -102,6 +102,8 @@ static void random_case(void)
         }
         if (chance(3)) args[n++] = ',';
         snprintf(ARG_NOTE, sizeof ARG_NOTE, "random: %d variable(s), %u argument(s)", nv, nargs);
+        ARG_CAP_HINT = chance(30) ? n + 1 + rn(3) : 0;          /* a third of the lines on a command capacity that just holds the arguments */
+        struct cat_command *c = args_world(nv, chance(70), chance(30), chance(50));
         args_run_and_judge(c, args, n, "C05");
         uint64_t h = hash_bytes(args, n, 50); for (int j = 0; j < nv; j++) h = hash_u64((uint64_t)(AF[j].type * 100 + (int)AF[j].size), h);
         nontrivial(h);
@@ -112,5 +114,5 @@ struct case_budget chk_budget(const char *tier)
         struct case_budget b = { N_SWEEP, strcmp(tier, "thorough") == 0 ? 25000000 : 500000 };
         return b;
 }
-void chk_run_case(uint64_t seed, long c, bool is_sweep) { (void)seed; ARG_NOTE[0] = 0; if (is_sweep) sweep_case(c); else random_case(); }
+void chk_run_case(uint64_t seed, long c, bool is_sweep) { (void)seed; ARG_NOTE[0] = 0; ARG_CAP_HINT = 0; if (is_sweep) sweep_case(c); else random_case(); }
 int main(int argc, char **argv) { CANARY_PROP = "C05"; MY_PROP = "C05"; PROG_NAME = "chk_C05"; return verif_main(argc, argv); }
